@@ -1,10 +1,13 @@
 """C17 - Resampling a plane changes its sampling, not its optics."""
+from contracts import util as _u
+
 META = {
-    'level_text': 'Proof of the bookkeeping for all shapes / parities, all positive real scale factors (down- and up-sampling alike) and monolithic or 2-segment masks, with the interpolation routine abstract: the returned plane is new (deep copy: the original and the caller\'s arrays are not written), its pixel scale is the original divided by exactly the scale on both axes, amplitude / OPD / every segment mask have ceil(n*scale) samples, the mask is binary and of integer type with its segment structure and recomputed slices, the interpolated amplitude is divided by the scale exactly once and the OPD is not, scale = 1 is the identity (given that spline interpolation reproduces its knots), the physical extent pixelscale x samples lies in [original, original + one new sample), resample(ps) is rescale(pixelscale/ps) and refuses unsampled or non-uniformly sampled planes. Preservation of transmitted power and of the propagated image "to interpolation accuracy" cannot be decided by any contract on scipy\'s map_coordinates: bounded native stand-in on smooth apodised apertures (even / odd / non-square, scales 0.5-3, segmented).',
+    'level_text': 'Proof of the bookkeeping for all shapes / parities, all positive real scale factors (down- and up-sampling alike) and monolithic or 2-segment masks, with scipy\'s map_coordinates abstract (an uninterpreted interpolant per call that reproduces its input at integer positions). util.rescale on the real code (real images, every shape and positive scale, cubic and order-0 interpolation): ceil(n*scale) samples per axis; output sample (i, j) reads input position ((i - N/2)/scale + n/2, (j - M/2)/scale + m/2) on BOTH axes with their own sizes; the support mask of the image is interpolated linearly on the same grid, cut to 0 below machine epsilon and multiplied in; identity at scale 1. Plane.rescale / resample on top of that contract: the returned plane is new (deep copy: the original and the caller\'s arrays are not written), its pixel scale is the original divided by exactly the scale on both axes, amplitude / OPD / every segment mask have ceil(n*scale) samples, the mask is binary and of integer type with its segment structure and recomputed slices, the interpolated amplitude is divided by the scale exactly once and the OPD is not, scale = 1 is the identity (given that spline interpolation reproduces its knots), the physical extent pixelscale x samples lies in [original, original + one new sample), resample(ps) is rescale(pixelscale/ps) and refuses unsampled or non-uniformly sampled planes. Preservation of transmitted power and of the propagated image "to interpolation accuracy" cannot be decided by any contract on scipy\'s map_coordinates: bounded native stand-in on smooth apodised apertures (even / odd / non-square, scales 0.5-3, segmented).',
     'level_note': 'lentil.util.rescale (scipy.ndimage.map_coordinates) is abstract: shape ceil(n*scale) and identity at scale 1 without unitary renormalisation are assumed library facts. An interpolated mask that comes out empty makes numpy raise IndexError (permitted).',
 }
 FUNCTIONS = ['lentil.plane.Plane.rescale#arrays', 'lentil.plane.Plane.rescale#scalar-opd', 'lentil.plane.Plane.rescale#two-segments',
              'lentil.plane.Plane.resample#arrays', 'lentil.plane.Plane.__init__', 'lentil.helper.boundary_slice']
+FUNCTIONS = FUNCTIONS + list(_u.RESCALE_BODY)
 LEMMAS = []
 
 
